@@ -626,12 +626,17 @@ def nodeInterfaces (node : Nid) : M Topo (List Nid) := do
   pure (direct.map (·.2) ++ sub.flatten)
 
 /-- `Topology._disconnect_interfaces`: each interface and, for a DedicatedPort, each of its sub-interfaces is
-disconnected from the service it is connected to -/
+disconnected from the service it is connected to; with `Rules.detachSkipsGone` an interface that is no longer in the
+graph (the ServicePort of a connection removed earlier in the loop) is skipped -/
 def detachAll (ifs : List Nid) : M Topo Unit :=
   forEach ifs (fun i => do
+    let there ← read (fun (s : Topo) => s.nodes.any (fun m => m.nid == i && m.cls == .connectionPoint))
+    if Rules.detachSkipsGone && !there then pure () else do
     let n ← findNode i
     let kids ← if n.typ == "DedicatedPort" then firstNeighbor i .connects .connectionPoint else pure []
     forEach (i :: kids) (fun ii => do
+      let there2 ← read (fun (s : Topo) => s.nodes.any (fun m => m.nid == ii && m.cls == .connectionPoint))
+      if Rules.detachSkipsGone && !there2 then pure () else do
       let peers ← peersOf ii
       let pn ← mapM' findNode peers
       let sp := pn.filter (fun n => n.typ == "ServicePort")
